@@ -1155,8 +1155,23 @@ func (a *art) mutateStream(mu Mut, enc bool) (data []byte, key hpke.PrivateKey, 
 		mustErr = true
 		tag += fmt.Sprintf(" to %d/%d", n, len(src))
 	case "extend":
-		data = append(append([]byte{}, src...), byte(mu.C), 0, 1, 2)
-		tag += " +4 bytes"
+		// appended data in several shapes (selected by B; B%6 == 0 is the original four-byte tail): a single byte,
+		// a run of one repeated byte value, and - as likely as the rest together - runs of zero bytes of the
+		// sizes padding would have (1 byte up to a few blocks), which "tolerate trailing padding" would let through
+		var tail []byte
+		sizes := []int{1, 2, 3, 16, 511, 512, 513, 4096, 10240}
+		switch mu.B % 6 {
+		case 0:
+			tail = []byte{byte(mu.C), 0, 1, 2}
+		case 1:
+			tail = []byte{byte(mu.C)}
+		case 2:
+			tail = bytes.Repeat([]byte{byte(mu.C)}, sizes[int(mu.B/6)%len(sizes)])
+		default:
+			tail = make([]byte, sizes[int(mu.B/6)%len(sizes)])
+		}
+		data = append(append([]byte{}, src...), tail...)
+		tag += fmt.Sprintf(" +%d bytes (first %#02x)", len(tail), tail[0])
 	case "readerr":
 		data = src
 		failAfter = int(mu.A) % len(src)
